@@ -31,6 +31,26 @@ def models(bb, t, args, st):
         if a[0] == "constref":
             return a[1]
         return a
+    m_t = re.search(r"core::tuple::<impl std::cmp::(Ord|PartialOrd|PartialEq) for \(U, T\)>::(cmp|partial_cmp|eq|ne|lt|le|gt|ge)\b", n)
+    if m_t and len(args) == 2:
+        # std's comparison of pairs is lexicographic; decided when both pairs are known constants
+        def pair(a):
+            v = absint.deep(st, val(a))
+            while v and v[0] in ("ref*", "constref"):
+                v = v[1]
+            if v and v[0] == "tuple" and len(v[1]) == 2:
+                x, y = absint.const_of(v[1][0]), absint.const_of(v[1][1])
+                if isinstance(x, int) and isinstance(y, int):
+                    return (x, y)
+            return None
+        pa, pb = pair(args[0]), pair(args[1])
+        if pa is not None and pb is not None:
+            op = m_t.group(2)
+            if op in ("cmp", "partial_cmp"):
+                r = ("agg", ORD, "Less" if pa < pb else ("Greater" if pa > pb else "Equal"), {})
+                return r if op == "cmp" else ("some", r)
+            r = {"eq": pa == pb, "ne": pa != pb, "lt": pa < pb, "le": pa <= pb, "gt": pa > pb, "ge": pa >= pb}[op]
+            return ("const", r, str(r).lower(), None)
     if re.search(r"impl std::cmp::Ord for u8>::cmp\b|<u8 as std::cmp::Ord>::cmp\b", n) and len(args) == 2:
         a, b = absint.const_of(val(args[0])), absint.const_of(val(args[1]))
         if isinstance(a, int) and isinstance(b, int):
